@@ -25,6 +25,7 @@ import (
 	"fmt"
 	"math/rand"
 	"net"
+	"sort"
 	"strings"
 	"testing"
 
@@ -183,7 +184,11 @@ func vfC17RunUDP(k *vfKit, c *vfC17UDPCase) {
 			k.Count("ev_host_rewritten_to_embedded_name", 1)
 		}
 	default:
-		if !vfC17InBytes(h1, ref.Plain) && !vfC17InBytes(h1, ref.Assembled) {
+		found := vfC17InBytes(h1, ref.Plain)
+		for _, seg := range ref.Segments {
+			found = found || vfC17InBytes(h1, seg)
+		}
+		if !found {
 			vfC17Violate(k, "sniff:udp-host-not-in-bytes", func() map[string]any { return c.replay(obs) }, "%s [%s]: host became %q which does not occur in the decrypted Initial payload", c.CaseID, c.Kind, h1)
 		}
 	}
@@ -263,6 +268,122 @@ func vfC17Reframe(r *rand.Rand, hello []byte) (pkt []byte, mainstream bool, note
 	note = fmt.Sprintf("reframed: version=%#x dcid=%d scid=%d token=%d pn=%d/%dB lenvarint=%dB crypto-pieces=%d order=%v payload=%d trailer=%d",
 		p.Version, len(p.DCID), len(p.SCID), len(p.Token), p.PN, p.PNLen, p.LenBytes, np, order, len(p.Payload), len(p.Trailer))
 	return p.Seal(), mainstream, note
+}
+
+// vfC17OddFrames produces CRYPTO frame layouts that are NOT a partition of the ClientHello:
+// overlapping frames, exact duplicates, gaps, a gap plus duplicated bytes of exactly the same
+// total length (hole inside / outside the server name), frames beyond the end, missing start.
+func vfC17OddFrames(r *rand.Rand, hello []byte, sni string) (frames []vfC17CryptoFrame, layout string) {
+	L := len(hello)
+	p := bytes.Index(hello, []byte(sni))
+	part := func(lo, hi, n int) []vfC17CryptoFrame { // n pieces covering [lo,hi)
+		var fs []vfC17CryptoFrame
+		if hi <= lo {
+			return nil
+		}
+		cuts := []int{lo, hi}
+		for i := 1; i < n && hi-lo > 1; i++ {
+			cuts = append(cuts, lo+1+r.Intn(hi-lo-1))
+		}
+		sort.Ints(cuts)
+		for i := 1; i < len(cuts); i++ {
+			if cuts[i] > cuts[i-1] {
+				fs = append(fs, vfC17CryptoFrame{Off: cuts[i-1], Data: hello[cuts[i-1]:cuts[i]]})
+			}
+		}
+		return fs
+	}
+	dup := func(total, avoidLo, avoidHi int) []vfC17CryptoFrame { // duplicated bytes of `total` length outside [avoidLo,avoidHi)
+		var fs []vfC17CryptoFrame
+		n := 1
+		if total > 1 && r.Intn(2) == 0 {
+			n = 2
+		}
+		for i := 0; i < n; i++ {
+			ln := total
+			if i < n-1 {
+				ln = 1 + r.Intn(total-1)
+			}
+			total -= ln
+			for try := 0; try < 50; try++ {
+				off := r.Intn(L - ln + 1)
+				if off+ln <= avoidLo || off >= avoidHi {
+					fs = append(fs, vfC17CryptoFrame{Off: off, Data: hello[off : off+ln]})
+					break
+				}
+			}
+		}
+		return fs
+	}
+	hole := func(inside bool) (int, int) {
+		m := 1 + r.Intn(6)
+		if inside && p >= 0 {
+			if m > len(sni) {
+				m = len(sni)
+			}
+			g := p + r.Intn(len(sni)-m+1)
+			return g, g + m
+		}
+		for {
+			g := 4 + r.Intn(L-4-m)
+			if p < 0 || g+m <= p || g >= p+len(sni) {
+				return g, g + m
+			}
+		}
+	}
+	switch v := r.Intn(16); {
+	case v < 2:
+		layout = "overlap (complete coverage)"
+		frames = part(0, L, 2+r.Intn(3))
+		for i := range frames {
+			lo, hi := frames[i].Off, frames[i].Off+len(frames[i].Data)
+			if lo > 0 && r.Intn(2) == 0 {
+				lo -= 1 + r.Intn(min(lo, 20))
+			}
+			if hi < L && r.Intn(2) == 0 {
+				hi += 1 + r.Intn(min(L-hi, 20))
+			}
+			frames[i] = vfC17CryptoFrame{Off: lo, Data: hello[lo:hi]}
+		}
+	case v < 4:
+		layout = "exact duplicate of a frame (complete coverage)"
+		frames = part(0, L, 1+r.Intn(3))
+		frames = append(frames, frames[r.Intn(len(frames))])
+	case v < 6:
+		inside := r.Intn(2) == 0
+		g, e := hole(inside)
+		layout = fmt.Sprintf("gap [%d,%d) inside-sni=%v, no duplicate", g, e, inside)
+		frames = append(part(0, g, 1+r.Intn(2)), part(e, L, 1+r.Intn(2))...)
+	case v < 11:
+		inside := v < 9
+		g, e := hole(inside)
+		d := dup(e-g, g, e)
+		layout = fmt.Sprintf("gap [%d,%d) inside-sni=%v + %d duplicated frame(s) of the same total length", g, e, inside, len(d))
+		frames = append(append(part(0, g, 1+r.Intn(2)), part(e, L, 1+r.Intn(2))...), d...)
+	case v < 12:
+		inside := r.Intn(2) == 0
+		g, e := hole(inside)
+		d := dup(e-g+1+r.Intn(4), g, e)
+		layout = fmt.Sprintf("gap [%d,%d) inside-sni=%v + duplicated bytes of a different total length", g, e, inside)
+		frames = append(append(part(0, g, 1), part(e, L, 1)...), d...)
+	case v < 13:
+		layout = "complete hello + a frame beyond its end"
+		frames = part(0, L, 1+r.Intn(2))
+		frames = append(frames, vfC17CryptoFrame{Off: L + r.Intn(40), Data: vfC17Bytes(r, 1+r.Intn(30))})
+	case v < 14:
+		g := 1 + r.Intn(40)
+		layout = fmt.Sprintf("start [0,%d) missing + duplicated bytes of the same length", g)
+		frames = append(part(g, L, 1+r.Intn(2)), dup(g, 0, g)...)
+	default:
+		cut := L - 1 - r.Intn(L/2)
+		layout = fmt.Sprintf("hello cut at %d (continues in the next packet) + duplicated bytes of the missing length", cut)
+		frames = append(part(0, cut, 1+r.Intn(2)), dup(L-cut, cut, L)...)
+	}
+	if r.Intn(2) == 0 {
+		r.Shuffle(len(frames), func(i, j int) { frames[i], frames[j] = frames[j], frames[i] })
+		layout += ", shuffled"
+	}
+	return frames, layout
 }
 
 func TestVerifC17UDP(t *testing.T) {
@@ -403,6 +524,24 @@ func TestVerifC17UDP(t *testing.T) {
 			c.Kind, c.Data = "garbage:random", d
 		}
 		add(c)
+	}
+	// CRYPTO frame layouts that are not a partition of the ClientHello
+	for i, no := 0, k.N(5000, 200000); i < no; i++ {
+		cp := small[r.Intn(len(small))]
+		frames, layout := vfC17OddFrames(r, cp.Hello, cp.SNI)
+		p := &vfC17Initial{Version: vfC17QV1, PNLen: 1 + r.Intn(4), LenBytes: 2, PN: uint32(r.Intn(3)),
+			DCID: vfC17Bytes(r, 8+r.Intn(13)), SCID: vfC17Bytes(r, r.Intn(21))}
+		if r.Intn(3) == 0 {
+			p.Version = vfC17QV2
+		}
+		p.Payload = vfC17FramesPayload(r, frames, 1100+r.Intn(250))
+		p.Trailer = vfC17Trailer(r)
+		var fl []string
+		for _, f := range frames {
+			fl = append(fl, fmt.Sprintf("[%d,%d)", f.Off, f.Off+len(f.Data)))
+		}
+		add(&vfC17UDPCase{Kind: "quic:non-partition-frames", SNI: cp.SNI, Mainstream: false, ExactCap: r.Intn(2) == 0, Dest: dest(),
+			Data: p.Seal(), Note: fmt.Sprintf("hello %d B, sni at %d; %s; frames %v", len(cp.Hello), bytes.Index(cp.Hello, []byte(cp.SNI)), layout, fl)})
 	}
 	for _, c := range cases {
 		if rc := k.ReplayCase(); rc != "" && rc != c.CaseID {
